@@ -674,3 +674,10 @@ M("c03-corner-centre-not-on-border", "C03", "cola/libavoid/visibility.cpp",
   "        if (kPrev && kNext && (k->point == centerInf->point))", "        if (false && kPrev && kNext && (k->point == centerInf->point))", mention=["SWEEP-CHORD"])
 M("c13-tie-prunes-own-bend", "C13", "cola/libtopology/topology_constraints.cpp",
   "    EdgePoint* victim=redundantBend(bendPoint);", "    EdgePoint* victim=bendPoint;", mention=["BEND-TIE"])
+
+# ---------------------------------------------------------------- reverts (round d, part 3)
+M("c07-idle-axis-not-recorded", "C07", "cola/libcola/colafd.cpp", "        setPosition(x1,true);", "        setPosition(x1);", mention=["IDLE-AXIS-REPORTED"])
+M("c07-processed-pairs-offered-again", "C07", "cola/libcola/cc_nonoverlapconstraints.cpp",
+  "    if (info.processed)\n    {", "    if (false && info.processed)\n    {", mention=["IDLE-AXIS-REPORTED"])
+M("c14-core-alignments-kept", "C14", "cola/libdialect/hola.cpp", "                coreMatrix.free(s, t);", "                (void) coreMatrix;", mention=["RETURNED-ALIGNMENTS"])
+M("c14-middle-child-always-aligned", "C14", "cola/libdialect/trees.cpp", "        if (std::fabs(offset) > 1e-6) continue;", "        (void) offset;", mention=["RETURNED-ALIGNMENTS"])
